@@ -22,6 +22,9 @@ by 0-based step number; the result is the last step.
   broadcast~<k>~<shape>~<chunks>
   zip with operands of different shape: each operand whose shape differs from the NumPy broadcast
                           shape is wrapped in `broadcastTo` (chunks of the other operand on the broadcast axes)
+  NOT modelled (`err unsupported`): the implicit chunk unification of the real API (`zip` / `concat`
+                          operands whose chunks differ on a shared axis — insert an explicit `rechunk` step),
+                          `concat` with a size-0 operand (dropped by `da.concatenate`)
   cumsum~<k>~<axis>       sequential `CumReduction`
   mapblocks~<fn>~<k>      fn ∈ bcumsum (np.cumsum(b, axis=-1)) | bflip0 (b[::-1]) | bsubfirst (b - b.flat[0])
   (None/newaxis, anything else: `err unsupported`)
@@ -109,24 +112,28 @@ def parseIx? (s : String) : Except PErr Ix :=
     | some sl => .ok (.slc sl)
     | none => .error .unsupported
 
-/-- NumPy broadcast of two shapes / chunk layouts (aligned at the right); `none` if incompatible -/
-def bcastLayouts (sa sb : List Nat) (ca cb : Layout) : Option (List Nat × Layout) :=
+/-- NumPy broadcast of two shapes / chunk layouts (aligned at the right).
+`.error .illformed`: shapes do not broadcast; `.error .unsupported`: the operands would need the
+implicit chunk unification of the real API (`unify_chunks`), which is not modelled — insert an
+explicit `rechunk` step. -/
+def bcastLayouts (sa sb : List Nat) (ca cb : Layout) : Except PErr (List Nat × Layout) :=
   let r := max sa.length sb.length
   let pa := List.replicate (r - sa.length) 1 ++ sa
   let pb := List.replicate (r - sb.length) 1 ++ sb
   let qa := List.replicate (r - ca.length) [1] ++ ca
   let qb := List.replicate (r - cb.length) [1] ++ cb
-  let rec go : List Nat → List Nat → Layout → Layout → Option (List Nat × Layout)
-    | [], [], [], [] => some ([], [])
+  let rec go : List Nat → List Nat → Layout → Layout → Except PErr (List Nat × Layout)
+    | [], [], [], [] => .ok ([], [])
     | x :: xs, y :: ys, c :: cs, d :: ds =>
       match go xs ys cs ds with
-      | none => none
-      | some (sh, l) =>
-        if x = y then some (x :: sh, (if c = [1] then d else c) :: l)
-        else if x = 1 then some (y :: sh, d :: l)
-        else if y = 1 then some (x :: sh, c :: l)
-        else none
-    | _, _, _, _ => none
+      | .error e => .error e
+      | .ok (sh, l) =>
+        if x = y then
+          (if c = d then .ok (x :: sh, c :: l) else .error .unsupported)
+        else if x = 1 then (if c = [1] then .ok (y :: sh, d :: l) else .error .unsupported)
+        else if y = 1 then (if d = [1] then .ok (x :: sh, c :: l) else .error .unsupported)
+        else .error .illformed
+    | _, _, _, _ => .error .illformed
   go pa pb qa qb
 
 def normAxis (axis : Int) (rank : Nat) : Except PErr Nat :=
@@ -161,13 +168,11 @@ def parseStep (steps : Array Expr) (step : String) :
     let f ← ofOpt (binOps.idxOf? fn) .unsupported
     let a ← ref a
     let b ← ref b
-    if shape a = shape b then pure (.zip f a b, none) else
-    match bcastLayouts (shape a) (shape b) (chunks a) (chunks b) with
-    | none => .error .illformed
-    | some (sh, l) =>
-      let a' := if shape a = sh then a else .broadcastTo a sh l
-      let b' := if shape b = sh then b else .broadcastTo b sh l
-      pure (.zip f a' b', none)
+    if shape a = shape b ∧ chunks a = chunks b then pure (.zip f a b, none) else
+    let (sh, l) ← bcastLayouts (shape a) (shape b) (chunks a) (chunks b)
+    let a' := if shape a = sh ∧ chunks a = l then a else .broadcastTo a sh l
+    let b' := if shape b = sh ∧ chunks b = l then b else .broadcastTo b sh l
+    pure (.zip f a' b', none)
   | ["slice", k, idx] =>
     let e ← ref k
     let items ← (if idx = "_" then pure [] else (idx.splitOn "|").mapM parseIx?)
@@ -190,6 +195,11 @@ def parseStep (steps : Array Expr) (step : String) :
     | [] => .error .illformed
     | e :: _ =>
       let ax ← normAxis axis (shape e).length
+      -- `da.concatenate` drops size-0 operands and unifies the off-axis chunks before it builds
+      -- the `Concatenate` node: neither is modelled
+      if es.any (fun x => (shape x).any (· == 0)) then .error .unsupported else
+      if es.any (fun x => decide ((shape x).set ax 0 = (shape e).set ax 0) &&
+          !decide ((chunks x).set ax [] = (chunks e).set ax [])) then .error .unsupported else
       let r ← ofOpt (Expr.concatN es ax) .illformed
       pure (r, none)
   | ["reduce", fn, k, axes, keep, se] =>
